@@ -117,9 +117,13 @@
                 (case (car x)
                   ((only)
                    (map (lambda (imp)
-                          (if (or (boolean? imp-ids) (memq imp imp-ids))
-                              imp
-                              (error "importing unknown binding" imp imp-ids)))
+                          (let ((found (if (boolean? imp-ids)
+                                           (list imp)
+                                           (id-filter (lambda (i) (eq? i imp))
+                                                      imp-ids))))
+                            (if (pair? found)
+                                (car found)
+                                (error "importing unknown binding" imp imp-ids))))
                         (cddr x)))
                   ((except)
                    (id-filter (lambda (i) (not (memq i (cddr x)))) imp-ids))
